@@ -157,6 +157,38 @@ def _tagged_choice_ref(M, t):
     return t["k"] == "TAGGED" and t["t"]["k"] == "REF" and M.deref(t["t"])["k"] == "CHOICE"
 
 
+UNIV = {"BOOLEAN": 1, "INTEGER": 2, "BITS": 3, "OCTETS": 4, "NULL": 5, "OID": 6, "REAL": 9, "ENUM": 10, "RELOID": 13,
+        "SEQUENCE": 16, "SEQOF": 16, "SET": 17, "SETOF": 17}
+USTR = {"UTF8": 12, "Numeric": 18, "Printable": 19, "IA5": 22, "UTCTime": 23, "GeneralizedTime": 24, "Visible": 26,
+        "Universal": 28, "BMP": 30}
+
+
+def outer_tag(M, t, automatic_index=None):
+    """(class rank, number) of a type's outermost tag, None for an untagged CHOICE"""
+    while t["k"] == "REF":
+        t = M.env[t["n"]]
+    if t["k"] == "TAGGED":
+        return ("UACP".index(t["cl"]), t["num"])
+    if t["k"] == "CHOICE":
+        return None
+    if t["k"] == "STRING":
+        return (0, USTR[t["st"]])
+    return (0, UNIV[t["k"]])
+
+
+def _choice_noninvolutive_order(M, t):
+    if t["k"] != "CHOICE":
+        return False
+    auto = M.mod["tagging"] == "AUTOMATIC" and not any(c["t"]["k"] == "TAGGED" for c in t["comps"])
+    if auto:
+        return False
+    tags = [outer_tag(M, c["t"]) for c in t["comps"]]
+    if any(x is None for x in tags):
+        return False
+    order = sorted(range(len(tags)), key=lambda i: tags[i])
+    return any(order[order[i]] != i for i in range(len(order)))
+
+
 def _set_default_explicit(t, v):
     """a SET value that stores a component equal to its DEFAULT explicitly"""
     if t["k"] != "SET":
@@ -191,5 +223,6 @@ PREDS = {
     "has_set": any_type(_has_set),
     "tag_ge_2p30": any_type(_tag_ge_2p30),
     "tagged_choice_ref": any_type(_tagged_choice_ref),
+    "choice_noninvolutive_order": any_type(_choice_noninvolutive_order),
     "set_default_explicit": any_leaf(_set_default_explicit),
 }
